@@ -78,6 +78,10 @@ OP = st.one_of(
     st.tuples(st.just("popitem")),
     st.tuples(st.just("clear")),
     st.tuples(st.just("update_bad"), st.sampled_from([5, {"l": [1]}, {"l": [{"t": [1, 2, 3]}]}, None])),
+    st.tuples(st.just("ior_bad"), st.sampled_from([5, 0, None, False, {"l": [1]}, "", "ab"])),
+    # one-shot iterators / generators (possibly empty: an iterator is truthy whatever it will yield) and the dict itself
+    st.tuples(st.just("update_iter"), PAIRS), st.tuples(st.just("ior_iter"), PAIRS), st.tuples(st.just("ior_gen"), PAIRS),
+    st.tuples(st.just("update_self")), st.tuples(st.just("ior_self")),
 ).map(list)
 
 
@@ -203,6 +207,20 @@ def run(case, ctx):
                 td.clear()
             elif k == "update_bad":
                 td.update(args[0])
+            elif k == "ior_bad":
+                r = td.__ior__(args[0])
+                if r is NotImplemented:
+                    raise TypeError("unsupported operand")
+            elif k == "update_iter":
+                td.update(iter([tuple(p) for p in args[0]]))
+            elif k == "ior_iter":
+                td.__ior__(iter([tuple(p) for p in args[0]]))
+            elif k == "ior_gen":
+                td.__ior__((tuple(p) for p in args[0]))
+            elif k == "update_self":
+                td.update(td)
+            elif k == "ior_self":
+                td.__ior__(td)
 
         def do_model(m):
             if k == "set":
@@ -233,6 +251,14 @@ def run(case, ctx):
                 m.clear()
             elif k == "update_bad":
                 m.update(vpairs(args[0]))
+            elif k == "ior_bad":
+                probe = {}
+                probe |= args[0]                       # (the builtin decides: TypeError / ValueError / fine)
+                m.update(vpairs(list(dict(args[0]).items()) if not isinstance(args[0], str) else args[0]))
+            elif k in ("update_iter", "ior_iter", "ior_gen"):
+                m.update(vpairs(args[0]))
+            elif k in ("update_self", "ior_self"):
+                m.update(vpairs(list(m.items())))
 
         try:
             m2 = dict(model)
@@ -267,7 +293,10 @@ def run(case, ctx):
         if k.endswith("mapform"):
             interesting = True
             ctx.label("non-dict-mapping:" + args[1])
-        if k.startswith(("update", "ior")) and e2 is None and isinstance(args[0], list):
+        if k.endswith("_self"):
+            interesting = True
+            ctx.label("self-as-argument")
+        if k.startswith(("update", "ior")) and e2 is None and args and isinstance(args[0], list):
             try:
                 ks = [kval(a) for a, _ in args[0]]
                 if len(set(ks)) < len(ks):
